@@ -219,6 +219,9 @@ func (r *Replica) syncOnce(ctx context.Context, maxSyncLTXFiles int) (result rep
 		if err := ctx.Err(); err != nil {
 			return result, context.Cause(ctx)
 		}
+		if verifEnabled {
+			verifTrace("replica.pre-upload", uint64(txID))
+		}
 		if err := r.uploadLTXFile(ctx, 0, txID, txID); err != nil {
 			return result, err
 		}
